@@ -1057,7 +1057,13 @@ def _norm(x, ord=None, axis=None, keepdims=False):
         for e in x.ravel():
             e = _py(e)
             s = s + (_abs(e) ** 2 if isinstance(e, SymComplex) else e * e)
-        r = sym_sqrt(s) if isinstance(s, SymReal) else math.sqrt(s)
+        # exact shortcut: the 2-norm of a vector with a single entry that is not the constant 0 is |entry| (no sqrt auxiliary)
+        nz = [e for e in (_py(v) for v in x.ravel())
+              if not ((isinstance(e, SymReal) and _is_const(e.t) and _const_fraction(e.t) == 0) or (not _is_sym(e) and e == 0))]
+        if len(nz) == 1 and isinstance(nz[0], SymReal):
+            r = abs(nz[0])
+        else:
+            r = sym_sqrt(s) if isinstance(s, SymReal) else math.sqrt(s)
         if keepdims:
             out = np.empty((1,) * x.ndim, dtype=object)
             out.flat[0] = r
@@ -1588,6 +1594,9 @@ class Explorer(_BaseCtx):
             return True
         if z3.is_false(t):
             return False
+        hit = self._decided.get(t.get_id())
+        if hit is not None:  # the very same condition was already decided on this path (it is in the path condition): no new decision
+            return hit[1]
         if time.perf_counter() - self.t_start > self.wall_budget_s:
             raise Budget("wall budget")
         i = self.pos
@@ -1599,6 +1608,10 @@ class Explorer(_BaseCtx):
         else:
             can_t, _ = self._check(t)
             can_f, _ = self._check(z3.Not(t))
+            if can_t == z3.unknown:
+                can_t = self._retry_unknown(z3.Not(t))[0]
+            if can_f == z3.unknown:
+                can_f = self._retry_unknown(t)[0]
             if can_t == z3.unknown or can_f == z3.unknown:
                 raise Unsupported(f"solver unknown at a branch: {str(t)[:200]}")
             if can_t == z3.sat and can_f == z3.sat:
@@ -1615,6 +1628,9 @@ class Explorer(_BaseCtx):
         c = t if d else z3.Not(t)
         self.pc.append(c)
         self.solver.add(c)
+        nt = _simp(z3.Not(t))
+        self._decided[t.get_id()] = (t, d)  # the terms are kept alive so that their ids stay unique
+        self._decided[nt.get_id()] = (nt, not d)
         return d
 
     def check(self, label, formula):
@@ -1646,10 +1662,10 @@ class Explorer(_BaseCtx):
         return False
 
     def _retry_unknown(self, fs):
-        """Second attempt with cross-multiplied goal / nlsat tactic on a fresh solver."""
+        """Second attempt: is ``pc and not fs`` satisfiable?  Fresh QF_NRA solver (nlsat), three times the time budget."""
         try:
-            s = z3.Then("simplify", "purify-arith", "nlsat").solver() if False else z3.SolverFor("QF_NRA")
-            s.set("timeout", self.query_timeout_ms)
+            s = z3.SolverFor("QF_NRA")
+            s.set("timeout", 3 * self.query_timeout_ms)
             for c in self.pc:
                 s.add(c)
             s.add(z3.Not(fs))
@@ -1712,6 +1728,7 @@ class Explorer(_BaseCtx):
             self.pos = 0
             self.trace = []
             self.pc = []
+            self._decided = {}
             self._aux = 0
             self.ufs = {}
             self.uf_calls = []
